@@ -1,51 +1,138 @@
 /-
-  Codecs of the nested wire types used inside SMB commands, in the flattened `Tup` form
-  (numbers and byte strings in declaration order).  Each follows the Go `Marshal`/`Unmarshal` of the
-  type as it is.
+  Codecs of the nested wire types used inside SMB commands, in the flattened `Tup` form of the
+  command IR (numbers and byte strings in declaration order, nested structs flattened depth-first —
+  the same walk `tools/harness/smb.go` does by reflection).  They are thin adapters around the C06
+  models (`Manticore/Model/C06.lean`), which follow the Go `Marshal`/`Unmarshal` of each type and carry
+  the C06 round-trip theorems; `Dialects` (not a C06 type) is modelled here.
 -/
 import Manticore.Model.SmbIR
+import Manticore.Model.C06
 namespace Manticore.SmbCodecs
-open Manticore Manticore.SmbIR
+open Manticore Manticore.SmbIR Manticore.C06
 
-def encBytes (typ : String) (v : Tup) : Outcome Bytes :=
-  match typ, v with
-  | "FILETIME", ([lo, hi], []) => .ok (natLe 4 lo ++ natLe 4 hi)
-  | "SMB_TIME", ([lo, hi], []) => .ok (natLe 4 lo ++ natLe 4 hi)
-  | "SMB_DATE", ([y, m, d], []) =>
-    -- value := (Year-1980)<<9 | uint16(Month)<<5 | uint16(Day), all in uint16
-    let vy := ((y + 65536 - 1980) % 65536 * 512) % 65536
-    .ok (natLe 2 (vy ||| (m * 32) ||| d))
-  | "SMB_FILE_ATTRIBUTES", ([a], []) => .ok (natBe 2 a)
-  | "SMB_NMPIPE_STATUS", ([i, f], []) => .ok [UInt8.ofNat i, UInt8.ofNat f]
-  | "LOCKING_ANDX_RANGE64", ([p, pad, oh, ol, lh, ll], []) =>
-    .ok (natLe 2 p ++ natLe 2 pad ++ natLe 4 oh ++ natLe 4 ol ++ natLe 4 lh ++ natLe 4 ll)
-  | _, _ => .err
+def u8 (n : Nat) : UInt8 := UInt8.ofNat n
+def u16 (n : Nat) : UInt16 := UInt16.ofNat n
+def u32 (n : Nat) : UInt32 := UInt32.ofNat n
+
+/-! ### Tup <-> typed values -/
+
+def strOf : Tup → Option SmbString.V
+  | ([f, l], [b]) => some ⟨u8 f, u16 l, b⟩
+  | _ => none
+def strTo (s : SmbString.V) : Tup := ([s.format.toNat, s.length.toNat], [s.buffer])
+
+def dateOf : Tup → Option SmbDate.V
+  | ([y, m, d], []) => some ⟨u16 y, u8 m, u8 d⟩
+  | _ => none
+def dateTo (d : SmbDate.V) : Tup := ([d.year.toNat, d.month.toNat, d.day.toNat], [])
+
+def timeOf : Tup → Option FileTime.V
+  | ([lo, hi], []) => some ⟨u32 lo, u32 hi⟩
+  | _ => none
+def timeTo (t : FileTime.V) : Tup := ([t.low.toNat, t.high.toNat], [])
+
+def attrOf : Tup → Option FileAttributes.V
+  | ([a], []) => some ⟨u16 a⟩
+  | _ => none
+def attrTo (a : FileAttributes.V) : Tup := ([a.attributes.toNat], [])
+
+def pipeOf : Tup → Option PipeStatus.V
+  | ([i, f], []) => some ⟨u8 i, u8 f⟩
+  | _ => none
+def pipeTo (p : PipeStatus.V) : Tup := ([p.icount.toNat, p.flags.toNat], [])
+
+def r64Of : Tup → Option Range64.V
+  | ([p, pad, oh, ol, lh, ll], []) => some ⟨u16 p, u16 pad, u32 oh, u32 ol, u32 lh, u32 ll⟩
+  | _ => none
+def r64To (r : Range64.V) : Tup :=
+  ([r.pid.toNat, r.pad.toNat, r.byteOffsetHigh.toNat, r.byteOffsetLow.toNat, r.lengthInBytesHigh.toNat, r.lengthInBytesLow.toNat], [])
+
+def rkOf : Tup → Option ResumeKey.V
+  | ([f, l, r], [b, ss, cs]) => some ⟨⟨u8 f, u16 l, b⟩, u8 r, ss, cs⟩
+  | _ => none
+def rkTo (r : ResumeKey.V) : Tup :=
+  ([r.str.format.toNat, r.str.length.toNat, r.reserved.toNat], [r.str.buffer, r.serverState, r.clientState])
+
+def dirOf : Tup → Option DirInfo.V
+  | ([rf, rl, rr, attr, lo, hi, y, m, d, size, nf, nl], [rb, ss, cs, nb]) =>
+    some ⟨⟨⟨u8 rf, u16 rl, rb⟩, u8 rr, ss, cs⟩, u8 attr, ⟨u32 lo, u32 hi⟩, ⟨u16 y, u8 m, u8 d⟩, u32 size, ⟨u8 nf, u16 nl, nb⟩⟩
+  | _ => none
+def dirTo (d : DirInfo.V) : Tup :=
+  ([d.resumeKey.str.format.toNat, d.resumeKey.str.length.toNat, d.resumeKey.reserved.toNat, d.fileAttributes.toNat,
+    d.lastWriteTime.low.toNat, d.lastWriteTime.high.toNat,
+    d.lastWriteDate.year.toNat, d.lastWriteDate.month.toNat, d.lastWriteDate.day.toNat,
+    d.fileSize.toNat, d.fileName.format.toNat, d.fileName.length.toNat],
+   [d.resumeKey.str.buffer, d.resumeKey.serverState, d.resumeKey.clientState, d.fileName.buffer])
+
+/-! ### Dialects (dialects/dialects.go): a sequence of `02 name 00` entries -/
+
+/-- `Marshal`: each dialect is introduced by its own buffer format byte and NUL-terminated -/
+def dialectsEnc (names : List Bytes) : Bytes := names.flatMap (fun n => 2 :: n ++ [0])
+
+/-- `Unmarshal`: loop `for bytesRead < len(data)`: format byte must be 0x02, then scan for the NUL.
+    `fuel` is the structural argument (every iteration consumes at least two bytes). -/
+def dialectsDecAux : (fuel : Nat) → Bytes → List Bytes → Nat → Outcome (List Bytes × Nat)
+  | 0, _, acc, n => .ok (acc, n)
+  | fuel+1, rest, acc, n =>
+    match rest with
+    | [] => .ok (acc, n)
+    | f :: body =>
+      if f ≠ 2 then .err
+      else match nulIndex body with
+        | none => .err
+        | some i => dialectsDecAux fuel (body.drop (i + 1)) (acc ++ [body.take i]) (n + i + 2)
+
+def dialectsDec (b : Bytes) : Outcome (List Bytes × Nat) := dialectsDecAux (b.length + 1) b [] 0
+
+/-! ### the codec table -/
+
+def lift {α} (of : Tup → Option α) (f : α → Outcome (Bytes × α)) (to : α → Tup) (v : Tup) : Outcome (Bytes × Tup) :=
+  match of v with
+  | some a => (f a).map' (fun (b, a') => (b, to a'))
+  | none => .err
+
+def pure' {α} (enc : α → Outcome Bytes) (a : α) : Outcome (Bytes × α) := (enc a).map' (fun b => (b, a))
+
+def enc (typ : String) (v : Tup) : Outcome (Bytes × Tup) :=
+  match typ with
+  | "SMB_STRING" => lift strOf SmbString.marshal strTo v
+  | "OEM_STRING" => lift strOf OemString.marshal strTo v
+  | "SMB_DATE" => lift dateOf (pure' SmbDate.encode) dateTo v
+  | "SMB_TIME" => lift timeOf (pure' FileTime.encode) timeTo v
+  | "FILETIME" => lift timeOf (pure' FileTime.encode) timeTo v
+  | "SMB_FILE_ATTRIBUTES" => lift attrOf (pure' FileAttributes.encode) attrTo v
+  | "SMB_NMPIPE_STATUS" => lift pipeOf (pure' PipeStatus.encode) pipeTo v
+  | "LOCKING_ANDX_RANGE64" => lift r64Of (pure' Range64.encode) r64To v
+  | "SMB_RESUME_KEY" => lift rkOf ResumeKey.marshal rkTo v
+  | "SMB_DIRECTORY_INFORMATION" => lift dirOf DirInfo.marshal dirTo v
+  | "Dialects" => match v with
+    | ([], names) => .ok (dialectsEnc names, v)
+    | _ => .err
+  | _ => .err
+
+def liftD {α} (d : Bytes → Outcome (α × Nat)) (to : α → Tup) (b : Bytes) : Outcome (Tup × Nat) :=
+  (d b).map' (fun (a, n) => (to a, n))
 
 def dec (typ : String) (b : Bytes) : Outcome (Tup × Nat) :=
   match typ with
-  | "SMB_DATE" =>
-    if b.length < 2 then .err else
-    let v := leNat (b.take 2)
-    .ok (([((v &&& 0xFE00) >>> 9) + 1980, (v &&& 0x01E0) >>> 5, v &&& 0x001F], []), 2)
-  | "SMB_FILE_ATTRIBUTES" =>
-    -- binary.BigEndian.Uint16(data): panics when fewer than two bytes
-    if b.length < 2 then .panic else .ok (([beNat (b.take 2)], []), 2)
-  | "SMB_NMPIPE_STATUS" =>
-    match b with
-    | [i, f] => .ok (([i.toNat, f.toNat], []), 2)
-    | _ => .err
-  | "LOCKING_ANDX_RANGE64" =>
-    if b.length < 20 then .err else
-    let g (o w : Nat) := leNat ((b.drop o).take w)
-    .ok (([g 0 2, g 2 2, g 4 4, g 8 4, g 12 4, g 16 4], []), 20)
+  | "SMB_STRING" => liftD SmbString.decode strTo b
+  | "OEM_STRING" => liftD OemString.decode strTo b
+  | "SMB_DATE" => liftD SmbDate.decode dateTo b
+  | "SMB_TIME" => liftD FileTime.decode timeTo b
+  | "FILETIME" => liftD FileTime.decode timeTo b
+  | "SMB_FILE_ATTRIBUTES" => liftD FileAttributes.decode attrTo b
+  | "SMB_NMPIPE_STATUS" => liftD PipeStatus.decode pipeTo b
+  | "LOCKING_ANDX_RANGE64" => liftD Range64.decode r64To b
+  | "SMB_RESUME_KEY" => liftD ResumeKey.decode rkTo b
+  | "SMB_DIRECTORY_INFORMATION" => liftD DirInfo.decode dirTo b
+  | "Dialects" => (dialectsDec b).map' (fun (names, n) => ((([] : List Nat), names), n))
   | _ => .err
 
+/-- `SetBufferFormat k` on an SMB_STRING-shaped value: the first number is the format -/
 def setFmt (k : Nat) (v : Tup) : Tup :=
   match v with
   | (_ :: rest, bs) => (k :: rest, bs)
   | _ => v
-
-def enc (typ : String) (v : Tup) : Outcome (Bytes × Tup) := (encBytes typ v).map' (fun b => (b, v))
 
 def std : Codecs := { enc := enc, dec := dec, setFmt := setFmt }
 
